@@ -107,7 +107,9 @@ NodeUnit(S, m) ==
       docs |-> <<full>> \o [j \in DOMAIN ks |-> wrong(j)] \o [j \in DOMAIN ks |-> nested(j)], nobuild |-> <<>>]
 
 (* ---- capitalization lists ---- *)
-CapLists == << <<"ID">>, <<"ID", "URL">>, <<"3D", "ID">>, <<"IPv4", "ID">>, <<"Id", "URl">>, <<"Foo_Bar">> >>
+\* (the last three start with a lower-case letter -- iOS, eBay style: the field must still be exported; fix e2eef26)
+CapLists == << <<"ID">>, <<"ID", "URL">>, <<"3D", "ID">>, <<"IPv4", "ID">>, <<"Id", "URl">>, <<"Foo_Bar">>,
+               <<"iD">>, <<"uRL", "iPv4">>, <<"idx", "url">> >>
 CapUnit(i) ==
   LET names == <<"id", "my_id", "user-id", "3d", "url", "ipv4", "foo_bar", "idx">>
       ps == [k \in DOMAIN names |-> [k |-> names[k], s |-> Int_]]
